@@ -198,6 +198,13 @@ Proof. unfold filter_referrers. destruct (is_empty a); [reflexivity|apply filter
 
 (* ---------- the client loop against the registry ---------- *)
 
+Lemma firstn_plus {A} (m n : nat) (l : list A) :
+  firstn (m + n) l = firstn m l ++ firstn n (skipn m l).
+Proof.
+  revert l. induction m as [|m IH]; intro l; simpl; [reflexivity|].
+  destruct l as [|x l]; simpl; [now rewrite firstn_nil|]. now rewrite IH.
+Qed.
+
 (* the URL a registry's next link stands for: same path, cursor x, the registry's extra
    parameters, then the other parameters of the request *)
 Definition link_target (d : decision) (rq : url) (x : str) : url :=
@@ -228,8 +235,6 @@ Section Listing.
     contains c_gt (render i base (link_target (ds i) base x)) = false.
   Hypothesis Hresolve : forall i base x, In x (map fst L) ->
     resolve base (render i base (link_target (ds i) base x)) = Some (link_target (ds i) base x).
-  (* every document fits into MaxMetadataBytes *)
-  Hypothesis Hfits : forall i, (Z.of_N (d_doc_len (ds i)) <= eff_limit (c_limit c))%Z.
   (* the link does not change the artifactType the request asked for *)
   Hypothesis Hextra : c_kind c = KReferrers -> forall i, qget k_at (d_extra (ds i)) = None.
 
@@ -256,13 +261,14 @@ Section Listing.
   Proof. reflexivity. Qed.
 
   Lemma handle_serve i rq :
+    (Z.of_N (d_doc_len (ds i)) <= eff_limit (c_limit c))%Z ->
     (c_kind c = KReferrers -> qget_s k_at (u_query rq) = c_at c) ->
     handle c (serve i rq) = inr (view (firstn (m_of i rq) (rest_of rq))).
   Proof.
-    intro Hat. unfold handle, serve, reg_serve, reg_page, body_fits. cbn [rs_status rs_ctype_ok rs_json_ok rs_doc_len rs_items rs_fhdr rs_fann].
+    intros Hfit Hat. unfold handle, serve, reg_serve, reg_page, body_fits. cbn [rs_status rs_ctype_ok rs_json_ok rs_doc_len rs_items rs_fhdr rs_fann].
     fold (rest_of rq). fold (m_of i rq).
     change (200 =? 200) with true. cbn [negb].
-    assert (F : (Z.of_N (d_doc_len (ds i)) <=? eff_limit (c_limit c))%Z = true) by (apply Z.leb_le; apply Hfits).
+    assert (F : (Z.of_N (d_doc_len (ds i)) <=? eff_limit (c_limit c))%Z = true) by (apply Z.leb_le; exact Hfit).
     rewrite F. cbn [andb negb].
     unfold view, reg_filters.
     destruct (c_kind c) eqn:K; cbn [sends_last negb andb]; try reflexivity.
@@ -279,6 +285,17 @@ Section Listing.
         destruct (d_filter (ds i)); [now rewrite filter_referrers_idem|reflexivity].
   Qed.
 
+  Definition fits (i : nat) : Prop := (Z.of_N (d_doc_len (ds i)) <= eff_limit (c_limit c))%Z.
+
+  Lemma handle_serve_oversize i rq : ~ fits i -> handle c (serve i rq) = inl ErrDecode.
+  Proof.
+    intro Hn. unfold handle, serve, reg_serve, reg_page, body_fits.
+    cbn [rs_status rs_ctype_ok rs_json_ok rs_doc_len].
+    change (200 =? 200) with true. cbn [negb andb].
+    assert (F : (Z.of_N (d_doc_len (ds i)) <=? eff_limit (c_limit c))%Z = false) by (apply Z.leb_gt; unfold fits in Hn; lia).
+    rewrite F. cbn [negb]. destruct (c_kind c); reflexivity.
+  Qed.
+
   Lemma concat_delivered p :
     concat (if delivered c (view p) then [view p] else []) = view p.
   Proof.
@@ -287,6 +304,7 @@ Section Listing.
   Qed.
 
   Lemma loop_listing :
+    (forall i, (Z.of_N (d_doc_len (ds i)) <= eff_limit (c_limit c))%Z) ->
     forall fuel i k u last rest pre,
       rest_of (mk_request c u last) = rest ->
       L = pre ++ rest ->
@@ -295,10 +313,11 @@ Section Listing.
       let t := loop serve resolve (fun _ => false) c fuel i k u last in
       t_out t = Done /\ concat (t_pages t) = view rest /\ (length (t_reqs t) <= S (length rest))%nat.
   Proof.
+    intro Hfits.
     induction fuel as [|fuel IH]; intros i k u last rest pre Hrest HL Hat Hfuel; [lia|].
     cbn [loop]. cbv zeta.
     set (rq := mk_request c u last) in *.
-    rewrite (handle_serve i rq Hat). rewrite andb_false_r.
+    rewrite (handle_serve i rq (Hfits i) Hat). rewrite andb_false_r.
     rewrite serve_link. rewrite Hrest.
     set (m := m_of i rq).
     assert (Hm : (1 <= m)%nat) by apply m_of_pos.
@@ -340,6 +359,80 @@ Section Listing.
       + rewrite concat_delivered. now rewrite firstn_all2.
       + simpl. lia.
   Qed.
+
+  Lemma view_nil : view [] = [].
+  Proof. unfold view, filter_referrers. destruct (c_kind c); try reflexivity. destruct (is_empty (c_at c)); reflexivity. Qed.
+
+  (* without assuming that documents fit: the listing either completes, or stops with a
+     decode error at the first document that does not fit, having delivered whole pages *)
+  Lemma loop_listing_limit :
+    forall fuel i k u last rest pre,
+      rest_of (mk_request c u last) = rest ->
+      L = pre ++ rest ->
+      (c_kind c = KReferrers -> qget_s k_at (u_query (mk_request c u last)) = c_at c) ->
+      (length rest < fuel)%nat ->
+      let t := loop serve resolve (fun _ => false) c fuel i k u last in
+      (t_out t = Done /\ concat (t_pages t) = view rest /\
+       forall j, (j < length (t_reqs t))%nat -> fits (i + j)) \/
+      (t_out t = ErrDecode /\
+       exists n j, concat (t_pages t) = view (firstn n rest) /\ length (t_reqs t) = S j /\
+                   ~ fits (i + j) /\ forall j', (j' < j)%nat -> fits (i + j')).
+  Proof.
+    induction fuel as [|fuel IH]; intros i k u last rest pre Hrest HL Hat Hfuel; [lia|].
+    cbn [loop]. cbv zeta.
+    set (rq := mk_request c u last) in *.
+    destruct (Z.le_gt_cases (Z.of_N (d_doc_len (ds i))) (eff_limit (c_limit c))) as [Hfit|Hbig].
+    2:{ right. rewrite handle_serve_oversize by (unfold fits; lia). cbn [t_out t_pages t_reqs].
+        split; [reflexivity|]. exists 0%nat, 0%nat. simpl. rewrite view_nil, Nat.add_0_r.
+        repeat split; auto; try lia. unfold fits. lia. }
+    rewrite (handle_serve i rq Hfit Hat). rewrite andb_false_r.
+    rewrite serve_link. rewrite Hrest.
+    set (m := m_of i rq).
+    assert (Hm : (1 <= m)%nat) by apply m_of_pos.
+    destruct (m <? length rest)%nat eqn:Emore.
+    - apply Nat.ltb_lt in Emore.
+      assert (Hin : In (last_name (firstn m rest)) (map fst L)).
+      { rewrite HL, map_app. apply in_or_app. right. apply last_name_in; lia. }
+      assert (Etgt : mkUrl (u_path rq) (link_query i rq) = link_target (ds i) rq (last_name (firstn m rest))).
+      { unfold link_query, link_target. fold m. now rewrite Hrest. }
+      rewrite Etgt.
+      rewrite parse_link_wellformed by (now apply Hrender_gt).
+      rewrite Hresolve by exact Hin.
+      set (tgt := link_target (ds i) rq (last_name (firstn m rest))).
+      assert (Hlast : qget k_last (u_query (mk_request c tgt [])) = Some (VS (last_name (firstn m rest)))).
+      { rewrite mk_request_last. cbn [is_empty negb]. rewrite andb_false_r.
+        unfold tgt, link_target. cbn [u_query qget]. now rewrite str_eqb_refl. }
+      assert (Hrest' : rest_of (mk_request c tgt []) = skipn m rest).
+      { unfold rest_of, qget_s. rewrite Hlast. eapply after_page; eauto. }
+      assert (HL' : L = (pre ++ firstn m rest) ++ skipn m rest).
+      { rewrite <- app_assoc. now rewrite firstn_skipn. }
+      assert (Hat' : c_kind c = KReferrers -> qget_s k_at (u_query (mk_request c tgt [])) = c_at c).
+      { intro K. rewrite <- (Hat K). unfold qget_s. rewrite mk_request_at.
+        unfold tgt, link_target. cbn [u_query qget].
+        rewrite (str_eqb_neq k_last k_at) by exact k_last_neq_at.
+        rewrite qget_app, (Hextra K). rewrite qget_qdel_other; [|intro E; symmetry in E; now apply k_last_neq_at in E].
+        reflexivity. }
+      assert (Hlen : (length (skipn m rest) < fuel)%nat) by (rewrite skipn_length; lia).
+      set (pg := if delivered c (view (firstn m rest)) then [view (firstn m rest)] else []).
+      set (k' := if delivered c (view (firstn m rest)) then S k else k).
+      destruct (IH (S i) k' tgt [] (skipn m rest) (pre ++ firstn m rest) Hrest' HL' Hat' Hlen)
+        as [(O & P & R)|(O & n & j & P & R & N & B)];
+        unfold prepend; cbn [t_out t_pages t_reqs].
+      + left. split; [exact O|]. split.
+        * rewrite concat_app. rewrite P. unfold pg. rewrite concat_delivered.
+          rewrite <- view_app. now rewrite firstn_skipn.
+        * intros [|j] Hj; [now rewrite Nat.add_0_r|]. rewrite Nat.add_succ_r. apply (R j). simpl in Hj. lia.
+      + right. split; [exact O|]. exists (m + n)%nat, (S j). split; [|split; [|split]].
+        * rewrite concat_app. rewrite P. unfold pg. rewrite concat_delivered.
+          rewrite <- view_app. now rewrite firstn_plus.
+        * simpl. now rewrite R.
+        * now rewrite Nat.add_succ_r.
+        * intros [|j'] Hj; [now rewrite Nat.add_0_r|]. rewrite Nat.add_succ_r. apply (B j'). lia.
+    - apply Nat.ltb_ge in Emore. left.
+      rewrite parse_link_absent. cbn [t_out t_pages t_reqs]. split; [reflexivity|]. split.
+      + rewrite concat_delivered. now rewrite firstn_all2.
+      + simpl. intros j Hj. assert (j = 0)%nat by lia. subst j. now rewrite Nat.add_0_r.
+  Qed.
 End Listing.
 
 Lemma NoDup_suffix {A} (pre l : list A) : NoDup (pre ++ l) -> NoDup l.
@@ -371,8 +464,8 @@ Proof.
   { unfold rest_of, qget_s. rewrite mk_request_last. cbn [u_query qget].
     assert (S : sends_last (c_kind c) = true) by (destruct (c_kind c); try reflexivity; contradiction).
     rewrite S. destruct last0; reflexivity. }
-  destruct (loop_listing L cap ds render trailer resolve c Hnd Hne Hgt Hres Hfit
-              ltac:(intro; contradiction) fuel 0%nat 0%nat (mkUrl path []) last0 (after last0 L) pre
+  destruct (loop_listing L cap ds render trailer resolve c Hnd Hne Hgt Hres
+              ltac:(intro; contradiction) Hfit fuel 0%nat 0%nat (mkUrl path []) last0 (after last0 L) pre
               Hrest Hpre ltac:(intro; contradiction) Hfuel) as (O & P & R).
   assert (V : view c (after last0 L) = after last0 L).
   { unfold view. destruct (c_kind c); try reflexivity; contradiction. }
@@ -411,8 +504,8 @@ Proof.
                 qget_s k_at (u_query (mk_request c (mkUrl path (referrers_query (c_at c))) [])) = c_at c).
   { intros _. unfold qget_s. rewrite mk_request_at. cbn [u_query]. unfold referrers_query.
     destruct (c_at c) as [|x a]; [reflexivity|]. cbn [is_empty qget]. now rewrite str_eqb_refl. }
-  pose proof (loop_listing L cap ds render trailer resolve c Hnd Hne Hgt Hres Hfit
-              (fun _ => Hex) fuel 0%nat 0%nat (mkUrl path (referrers_query (c_at c))) [] L []
+  pose proof (loop_listing L cap ds render trailer resolve c Hnd Hne Hgt Hres
+              (fun _ => Hex) Hfit fuel 0%nat 0%nat (mkUrl path (referrers_query (c_at c))) [] L []
               Hrest eq_refl Hat Hfuel) as H.
   unfold serve in H. rewrite K in H. unfold view in H. rewrite K in H. exact H.
 Qed.
@@ -815,4 +908,49 @@ Lemma limit_spec :
 Proof.
   split; [exact eff_limit_default|]. split; [exact eff_limit_set|]. split; [exact max_read_le|].
   split; [exact handle_ok_fits|]. split; [exact handle_oversize|]. exact loop_done_all_fit.
+Qed.
+
+(* ---------- the listing without assuming that documents fit ---------- *)
+
+Definition start_query (c : cfg) : query :=
+  match c_kind c with KReferrers => referrers_query (c_at c) | _ => [] end.
+Definition start_rest (c : cfg) (last0 : str) (L : list item) : list item :=
+  match c_kind c with KReferrers => L | _ => after last0 L end.
+
+Theorem listing_limit :
+  forall (L : list item) (cap : nat) (ds : nat -> decision)
+         (render : nat -> url -> url -> str) (trailer : nat -> str)
+         (resolve : url -> str -> option url) (c : cfg) (path last0 : str) (fuel : nat),
+    NoDup (map fst L) -> (forall it, In it L -> fst it <> []) ->
+    (forall i base x, In x (map fst L) ->
+       contains c_gt (render i base (link_target (ds i) base x)) = false) ->
+    (forall i base x, In x (map fst L) ->
+       resolve base (render i base (link_target (ds i) base x)) = Some (link_target (ds i) base x)) ->
+    (c_kind c = KReferrers -> forall i, qget k_at (d_extra (ds i)) = None) ->
+    (length (start_rest c last0 L) < fuel)%nat ->
+    let t := loop (reg_serve (c_kind c) L cap ds render trailer) resolve (fun _ => false) c
+                  fuel 0 0 (mkUrl path (start_query c)) last0 in
+    let fit := fun i => (Z.of_N (d_doc_len (ds i)) <= eff_limit (c_limit c))%Z in
+    (t_out t = Done /\ concat (t_pages t) = view c (start_rest c last0 L) /\
+     forall j, (j < length (t_reqs t))%nat -> fit j) \/
+    (t_out t = ErrDecode /\
+     exists n j, concat (t_pages t) = view c (firstn n (start_rest c last0 L)) /\
+                 length (t_reqs t) = S j /\ ~ fit j /\ forall j', (j' < j)%nat -> fit j').
+Proof.
+  intros L cap ds render trailer resolve c path last0 fuel Hnd Hne Hgt Hres Hex Hfuel.
+  assert (Hsuf : exists pre, L = pre ++ start_rest c last0 L).
+  { unfold start_rest. destruct (c_kind c); try apply after_suffix. now exists []. }
+  destruct Hsuf as [pre Hpre].
+  assert (Hrest : rest_of L (mk_request c (mkUrl path (start_query c)) last0) = start_rest c last0 L).
+  { unfold rest_of, qget_s, start_rest, start_query. rewrite mk_request_last. cbn [u_query].
+    destruct (c_kind c); cbn [sends_last andb qget].
+    - destruct last0; reflexivity.
+    - destruct last0; reflexivity.
+    - unfold referrers_query. destruct (is_empty (c_at c)); reflexivity. }
+  assert (Hat : c_kind c = KReferrers ->
+                qget_s k_at (u_query (mk_request c (mkUrl path (start_query c)) last0)) = c_at c).
+  { intros K. unfold qget_s, start_query. rewrite mk_request_at. rewrite K. cbn [u_query]. unfold referrers_query.
+    destruct (c_at c) as [|x a]; [reflexivity|]. cbn [is_empty qget]. now rewrite str_eqb_refl. }
+  exact (loop_listing_limit L cap ds render trailer resolve c Hnd Hne Hgt Hres Hex
+           fuel 0%nat 0%nat (mkUrl path (start_query c)) last0 (start_rest c last0 L) pre Hrest Hpre Hat Hfuel).
 Qed.
